@@ -760,7 +760,7 @@ def apply_inexact(op, w, X, M, bump):
     if tc == 'z' and not scalar_arg:
         try:
             M2 = MDL.MM('z', M.m, M.n, [0j] * (M.m * M.n))
-            M2.v = [complex(complex(v).real, -0.0) if complex(v).imag == 0 else complex(v) for v in M.v]
+            M2.v = [complex(complex(v).real, -complex(v).imag) if complex(v).imag == 0 else complex(v) for v in M.v]     # the other zero
             vals_alt = (MDL.powm(M2, lit(op[4]['v'])) if dk == 'pow' else MDL.efun(op[4], M2))[1]
         except MDL.Refuse:
             vals_alt = vals
